@@ -122,6 +122,31 @@ def run(chk):
             except Exception as e:
                 bad("recover:exception:" + ph["name"], "%r" % e)
             chk.count(1)
+    # one estimator object serving many short-lived tomography objects (the way simulations use an estimator):
+    # the estimate depends on the tomography it is given, not on tomographies the estimator has seen before
+    import gc
+    est2 = LinearEstimator()
+
+    def one_shot(cfg):
+        qt = c08.build_tomo(cfg["tomo"])           # not retained: freed when this helper returns
+        fs = split(coords.rvec(cfg["data"]), cfg["sizes"])
+        return np.asarray(est2.calc_estimate(qt, [(100, f.copy()) for f in fs]).estimated_var)
+    full_cfgs = [(k, v) for k, v in sorted(built.items(), key=lambda kv: str(kv[0])) if v[2]["rank"] == v[2]["numvar"]]
+    for rnd in range(2):
+        for key, (_, scale, cfg) in full_cfgs:
+            tag = c08.tag_of(cfg["tomo"])
+            want = coords.rvec(cfg["est"]) * scale
+            chk.count(1)
+            try:
+                got = one_shot(cfg)
+                gc.collect()
+                if got.shape != want.shape or not coords.close(got, want, 1e-8):
+                    chk.violation("estimator_reuse:%s" % tag, "a re-used LinearEstimator returns a different estimate for a fresh tomography object than the exact least-squares solution",
+                                  dict(tomo=cfg["tomo"], clause="estimator_reuse"))
+                    break
+            except Exception as e:
+                chk.violation("estimator_reuse:exception:%s" % tag, "%r" % e, dict(tomo=cfg["tomo"], clause="estimator_reuse"))
+                break
     chk.notes["configurations"] = len(cfgs)
     chk.notes["datasets"] = len(datas) + len(cfgs)
     chk.assumptions += [
